@@ -69,6 +69,8 @@ CHECK_STRINGS = [
     # blanks of the rule language other than the space; runs of blanks and
     # blanks at the ends (they are part of the check STRING the sample states)
     'role:a\tor role:b', '  role:a  and   role:b ', ' ',
+    # characters outside ASCII and outside the Basic Multilingual Plane
+    "'\U0001f511':%(key)s or role:\u00e9-\U0001f680",
 ]
 
 
